@@ -251,7 +251,7 @@ class CppGen:
             ser.append('        std::printf("\\"err\\":\\"%s\\",\\"size\\":%lu,\\"bytes\\":", kind(r), static_cast<unsigned long>(r ? r.value() : 0));')
             ser.append("        hex(buf, (r && r.value() <= bufsize) ? r.value() : 0); break; }")
             des.append("    case %d: { %s* o; if (prior == 2 && keep[%d]) o = static_cast<%s*>(keep[%d]); else { o = new %s();" % (i, cn, i, cn, i, cn))
-            des.append("            if (prior == 1) { std::uint8_t junk[%d]; std::memset(junk, 0x01, sizeof junk); junk[0] = 0; (void) deserialize(*o, nunavut::support::const_bitspan(junk, sizeof junk)); } }"
+            des.append("            if (prior == 1) { std::uint8_t junk[%d]; std::memset(junk, 0x01, sizeof junk); junk[0] = 0; (void) deserialize(*o, nunavut::support::const_bitspan(static_cast<const std::uint8_t*>(junk), sizeof junk)); } }"
                        % max(8, min(64, dsdl.max_bits_body(t) // 8 + 1)))
             des.append("        const auto r = deserialize(*o, nunavut::support::const_bitspan(buf, size));")
             des.append('        std::printf("\\"err\\":\\"%s\\",\\"consumed\\":%lu,\\"val\\":", kind(r), static_cast<unsigned long>(r ? r.value() : 0));')
